@@ -420,7 +420,7 @@ def main():
             replay_b(rep, inp)
         rep.write(a.out); return
     part_a(rep, rng.fork(), 3000 if a.thorough else 300)
-    part_b(rep, rng.fork(), 30 if a.thorough else 5, 6 if a.thorough else 1)
+    part_b(rep, rng.fork(), 20 if a.thorough else 5, 4 if a.thorough else 1)
     rep.write(a.out)
 
 
